@@ -54,7 +54,11 @@ def run_project(ctx, n):
                 continue
             if not ok:
                 subst = {}; mode = 'empty'
-        if any(k_._numel == 0 for e in es + fs for k_ in e.fv(subst)):
+        try:
+            if any(k_._numel == 0 for e in es + fs for k_ in e.fv(subst)):
+                continue
+        except RecursionError:  # D41 (recorded under C06/C13): unify has no occurs check and returned a cyclic substitution
+            ctx.count('project.cyclic-subst-skipped')
             continue
         ids = {}
         vaxes = es
